@@ -91,6 +91,12 @@ def bounded(tier, seed):
                 # the same files under non-canonical spellings (through '..', relative, through './'): no file twice
                 odd = [os.path.join(os.path.dirname(f), "..", os.path.basename(os.path.dirname(f)), os.path.basename(f)) for f in files] \
                     + [os.path.relpath(f, root) for f in files] + ["./" + os.path.relpath(f, root) for f in files]
+                # ... and the directory itself spelled relatively next to its own files
+                rel = [str(p) for p in FileResolver(FileResolverConfig(respect_gitignore=False, **cfg)).resolve(["."] + [os.path.relpath(f, root) for f in files])]
+                rel2 = [str(p) for p in FileResolver(FileResolverConfig(respect_gitignore=False, **cfg)).resolve([os.path.relpath(f, root) for f in files] + ["."])]
+                evals += 2
+                if rel != rel2 or len({os.path.realpath(x) for x in rel}) != len(rel):
+                    viol.append({"clause": "no_file_twice_canonical", "input": dict(inp, args=["."] + [os.path.relpath(f, root) for f in files]), "got": [rel, rel2]})
                 c = [str(p) for p in FileResolver(FileResolverConfig(respect_gitignore=False, **cfg)).resolve(odd + args)]
                 d = [str(p) for p in FileResolver(FileResolverConfig(respect_gitignore=False, **cfg)).resolve(args + odd)]
                 evals += 2
